@@ -619,12 +619,142 @@ impl Part for Scopes {
     }
 }
 
-crate::declare_parts!(Scopes);
+// ------------------------------------------------------------------ includes of templates that fail half-way
+
+/// An include - plain, `ignore missing`, or a list of choices - of a template that EXISTS and
+/// fails while one of its own constructs is open (a missing template referenced from inside a
+/// set-block, a filter block, a loop, ...). Whatever the including template does with that error,
+/// it may not go on with the included template's capture, scope or escape mode still in place.
+#[derive(Clone, Debug, Serialize, Deserialize)]
+pub struct FailingIncludeCase {
+    pub failing: u8,
+    pub open: u8,
+    pub form: u8,
+    pub wrapper: u8,
+}
+
+pub struct FailingIncludes;
+
+const FAILING: [&str; 7] = [
+    "{% include 'nope.txt' %}",
+    "{% import 'nope.txt' as nm %}",
+    "{% from 'nope.txt' import nm %}",
+    "{% include ['nope.txt', 'nope2.txt'] %}",
+    "{{ 1 // 0 }}",
+    "{{ [1]|nosuchfilter }}",
+    "{% include 'inner2.txt' %}",
+];
+const OPEN: [&str; 10] = [
+    "@",
+    "{% set cap %}a@b{% endset %}",
+    "{% filter upper %}a@b{% endfilter %}",
+    "{% for z in [1, 2] %}{% set leak = 1 %}@{% endfor %}",
+    "{% with leak = 1 %}@{% endwith %}",
+    "{% autoescape true %}@{% endautoescape %}",
+    "{% macro fm() %}{% set leak = 1 %}@{% endmacro %}{{ fm() }}",
+    "{% macro wrap() %}{{ caller() }}{% endmacro %}{% call wrap() %}@{% endcall %}",
+    "{% block fb %}@{% endblock %}",
+    "{% set cap %}{% filter upper %}{% for z in [1] %}{% autoescape true %}@{% endautoescape %}{% endfor %}{% endfilter %}{% endset %}",
+];
+const FORMS: [&str; 5] = [
+    "{% include 'inner.txt' ignore missing %}",
+    "{% include ['inner.txt', 'ok.txt'] %}",
+    "{% include ['nope0.txt', 'inner.txt'] ignore missing %}",
+    "{% include ['inner.txt', 'nope0.txt'] ignore missing %}",
+    "{% include 'inner.txt' %}",
+];
+const WRAPPERS: [&str; 5] = [
+    "@",
+    "{% set o %}@{% endset %}[{{ o }}]",
+    "{% for y in [1, 2] %}@{% endfor %}",
+    "{% autoescape false %}@{% endautoescape %}",
+    "{% filter lower %}@{% endfilter %}",
+];
+
+impl Part for FailingIncludes {
+    type Case = FailingIncludeCase;
+    const NAME: &'static str = "includes_of_failing_templates";
+
+    fn strategy(_tier: Tier) -> BoxedStrategy<FailingIncludeCase> {
+        let all = Self::enumeration(Tier::Quick);
+        (0..all.len()).prop_map(move |i| all[i].clone()).boxed()
+    }
+
+    fn enumeration(_tier: Tier) -> Vec<FailingIncludeCase> {
+        let mut out = vec![];
+        for failing in 0..FAILING.len() as u8 {
+            for open in 0..OPEN.len() as u8 {
+                for form in 0..FORMS.len() as u8 {
+                    for wrapper in 0..WRAPPERS.len() as u8 {
+                        out.push(FailingIncludeCase { failing, open, form, wrapper });
+                    }
+                }
+            }
+        }
+        out
+    }
+
+    fn check(c: &FailingIncludeCase) -> Verdict {
+        let failing = FAILING[c.failing as usize % FAILING.len()];
+        let open = OPEN[c.open as usize % OPEN.len()];
+        let form = FORMS[c.form as usize % FORMS.len()];
+        let wrapper = WRAPPERS[c.wrapper as usize % WRAPPERS.len()];
+        let inner = format!("in({})", open.replace('@', failing));
+        let main = format!("\u{2039}pre\u{203a}{}\u{2039}post\u{203a}{{{{ \"<\" }}}}{{{{ leak is defined }}}}{{{{ cap is defined }}}}", wrapper.replace('@', form));
+        let mut v = Verdict::pass(c.open > 0 && c.form < 4);
+        for html in [false, true] {
+            let mut env = Environment::new();
+            env.set_fuel(Some(100_000));
+            let name = if html { "main.html" } else { "main.txt" };
+            let inner_name = "inner.txt";
+            env.add_template_owned(inner_name.to_string(), inner.clone()).unwrap();
+            env.add_template_owned("inner2.txt".to_string(), "{% set cap2 %}x{% include 'nope.txt' %}{% endset %}".to_string()).unwrap();
+            env.add_template_owned("ok.txt".to_string(), "ok".to_string()).unwrap();
+            if let Err(e) = env.add_template_owned(name.to_string(), main.clone()) {
+                v.set_fail("generated_template_fails", format!("{e:#}\nsource: {main}"));
+                return v;
+            }
+            let _ = minijinja::verif::take_balance_reports();
+            let res = env.get_template(name).unwrap().render(());
+            let reports = minijinja::verif::take_balance_reports();
+            match res {
+                Err(_) => v.labels.push("render_fails"),
+                Ok(out) => {
+                    v.labels.push("render_goes_on");
+                    let lt = if html { "&lt;" } else { "<" };
+                    let tail = format!("\u{2039}post\u{203a}{lt}falsefalse");
+                    if !out.starts_with("\u{2039}pre\u{203a}") || !out.ends_with(&tail) {
+                        v.set_fail(
+                            "text_after_failed_include_lost",
+                            format!("the render succeeded with {out:?}, which must start with the text before and end with {tail:?}: the text, escape mode and scope after the include\nmain: {main}\ninner.txt: {inner}"),
+                        );
+                        return v;
+                    }
+                    if !reports.is_empty() {
+                        v.set_fail("balance_report", format!("the engine's balance monitor reported {reports:?}\nmain: {main}\ninner.txt: {inner}"));
+                        return v;
+                    }
+                }
+            }
+        }
+        v
+    }
+
+    fn show(c: &FailingIncludeCase) -> serde_json::Value {
+        serde_json::json!({
+            "inner": OPEN[c.open as usize % OPEN.len()].replace('@', FAILING[c.failing as usize % FAILING.len()]),
+            "include": WRAPPERS[c.wrapper as usize % WRAPPERS.len()].replace('@', FORMS[c.form as usize % FORMS.len()]),
+        })
+    }
+}
+
+crate::declare_parts!(Scopes, FailingIncludes);
 
 pub fn run(ctx: &mut Ctx) {
     ctx.rule = "skeletons of nested scoped constructs (for with/without else, loop filter, recursive; with; set-block; filter block; autoescape on/off; if/else; macro + call; call block; scoped block; include of a template with its own break/continue; include / import / from-import of a template that itself extends a layout) up to depth 3 (thorough 4), with `break`/`continue` (each guarded by its own boolean) at every position the parser accepts; every if condition is its own context boolean and every loop iterates its own context list, and ALL assignments (2^k booleans x list lengths 0/1/2) are rendered when there are at most 160, else 160 sampled ones; in .txt and .html templates. Oracles per path: the verif_hooks balance monitor reports nothing (frame depth, capture depth, auto-escape stack, operand stack equal at entry and normal exit of every instruction-stream evaluation; no pop of a foreign frame/capture), a marker written after every top-level construct reaches the output in order, `{{ \"<\" }}` after it renders in the template's initial escape mode and `{{ \"<\" }}` printed right before and right after every nested scoped construct renders alike, a variable assigned inside an isolating construct (for, with, macro, call, block) is undefined after it, a variable assigned before keeps its value; no panic. Non-trivial: a break/continue separated from its loop by another scoped construct. Distinct by case.".into();
     ctx.assumptions = vec!["paths beyond the cap of 160 per program are sampled (labelled paths_sampled)".into()];
     preamble(ctx);
     let t = ctx.tier;
+    ctx.run_enumerated::<FailingIncludes>(FailingIncludes::enumeration(t), true);
     ctx.run_part::<Scopes>(t.pick(60_000, 1_000_000));
 }
